@@ -111,6 +111,13 @@ def _template_item(w: Random, c: _Counter, where: str) -> dict:
     vf = gen.pick(w, sorted(VARS_FILES))
     tpl = "{{ query }}" if where == "post" else "{{ queries }}"
     item = {"type": "template", "template": tpl + f" t{n}", "vars": VARS_FILES[vf], "_vf": vf}
+    if gen.chance(w, 0.3):
+        # the template calls the helper that the vars files export (each call leaves a trip-wire line)
+        item["template"] = tpl.replace("{{ ", "{{ ident(").replace(" }}", ") }}") + f" t{n}"
+        if gen.chance(w, 0.5):
+            # ... without naming a vars file itself: the helper is undefined unless it leaks in from elsewhere
+            del item["vars"]
+            item["_vf"] = ""
     if gen.chance(w, 0.25):
         # file based template: the document names the template directory (path) itself
         item["template"] = "q.j2" if where == "post" else "qs.j2"
@@ -181,6 +188,14 @@ def generate(streams: core.Streams, tier: str) -> dict:
         doc, inj = _pipeline_doc(w, c)
         pipelines[f"L{i}"] = doc
         injected_all[f"L{i}"] = inj
+    if n_pipes == 2 and gen.chance(w, 0.25):
+        # the cross-document case made likely: one document brings a vars file, the other only calls the helper
+        a, b = ("L0", "L1") if gen.chance(w, 0.5) else ("L1", "L0")
+        vf = gen.pick(w, sorted(VARS_FILES))
+        pipelines[a].setdefault("postprocessing", []).append(
+            {"type": "template", "template": "{{ ident(query) }} t" + str(c.next()), "vars": VARS_FILES[vf], "_vf": vf})
+        pipelines[b].setdefault("postprocessing", []).append(
+            {"type": "template", "template": "{{ ident(query) }} t" + str(c.next()), "_vf": ""})
     ops: list[dict] = []
     # initial environment
     for var in (EXT_ENV, VARS_ENV):
@@ -245,8 +260,10 @@ class Sim:
         S = self.S
         for d in ("A", "A/deep", "A_evil", "B", "src"):
             os.makedirs(os.path.join(S, d), exist_ok=True)
-        body = ("import os\nwith open({trip!r}, 'a') as _f:\n    _f.write(os.path.realpath(__file__) + '\\n')\n"
-                "vars = {{'ident': (lambda x: x)}}\n").format(trip=self.trip)
+        body = ("import os\n_ME = os.path.realpath(__file__)\n"
+                "with open({trip!r}, 'a') as _f:\n    _f.write(_ME + '\\n')\n"
+                "def ident(x):\n    with open({trip!r}, 'a') as _f:\n        _f.write('call:' + _ME + '\\n')\n    return x\n"
+                "vars = {{'ident': ident}}\n").format(trip=self.trip)
         for rel in ("A/ok.py", "A/deep/ok2.py", "A_evil/v.py", "B/evil.py"):
             with open(os.path.join(S, rel), "w") as fh:
                 fh.write(body)
@@ -284,7 +301,10 @@ class Sim:
         with open(self.trip) as fh:
             lines = fh.read().splitlines()
         for line in lines[self._trip_seen:]:
-            self.record("vars", line.replace(self.S, "@S@"))
+            if line.startswith("call:"):
+                self.record("varscall", line[5:].replace(self.S, "@S@"))
+            else:
+                self.record("vars", line.replace(self.S, "@S@"))
         self._trip_seen = len(lines)
 
     # -- fakes
@@ -473,6 +493,7 @@ def execute(scenario: dict) -> dict:
     loads: dict[str, dict] = {}      # pipeline id -> grant of the *latest* load
     load_of_op: dict[int, dict] = {}
     objs: dict[str, Any] = {}
+    executed: dict[str, set] = {}    # pipeline id -> vars files executed by its latest load
     token_owner: dict[str, str] = {}
     for pid, doc in sc["pipelines"].items():
         for it in _items(doc, ("file_placeholders", "http_placeholders", "command_placeholders")):
@@ -542,6 +563,7 @@ def execute(scenario: dict) -> dict:
                 if "ok" in res:
                     loads[pid] = grant
                 sim.poll_tripwire()
+                executed[pid] = {e["id"] for e in sim.events if e["t"] == k and e["kind"] == "vars"} if "ok" in res else set()
                 log.append({"op": k, "res": res})
                 outcome.append("L:" + ("ok" if "ok" in res else res["exc"]))
                 core.merge_counts(faults, {"load:" + op["via"]: 1})
@@ -567,7 +589,8 @@ def execute(scenario: dict) -> dict:
             # ---- capability model over the events of this op
             for ev in [e for e in sim.events if e["t"] == k]:
                 core.merge_counts(faults, {"event:" + ev["kind"].split(":")[0]: 1})
-                ok, why = _permitted(sc, ev, env_at[k], loads, load_of_op, token_owner, sim)
+                ok, why = _permitted(sc, ev, env_at[k], loads, load_of_op, token_owner, sim,
+                                     executed.get(str(op.get("pipeline")), set()))
                 if not ok and violation is None:
                     violation = {"oracle": "event-permitted-by-caller-or-environment", "kind": "unpermitted:" + ev["kind"].split(":")[0],
                                  "step": k, "got": ev, "want": why}
@@ -608,8 +631,16 @@ def execute(scenario: dict) -> dict:
             "steps": len(sc["ops"]), "signature": sig, "nontrivial": smuggled and io_items}
 
 
-def _permitted(sc: dict, ev: dict, env: dict, loads: dict, load_of_op: dict, token_owner: dict, sim: Sim) -> tuple[bool, str]:
+def _permitted(sc: dict, ev: dict, env: dict, loads: dict, load_of_op: dict, token_owner: dict, sim: Sim,
+               executed: set) -> tuple[bool, str]:
     kind = ev["kind"]
+    if kind == "varscall":
+        # a template called a helper exported by a vars file: fine iff that file was executed (and so
+        # permitted, see "vars" below) by the load of the very pipeline that is being used
+        if ev["id"] in executed:
+            return True, "helper of a vars file this pipeline's load executed"
+        return False, (f"helper of vars file {ev['id']} called by a pipeline whose load did not execute that file "
+                       f"(executed for it: {sorted(executed)})")
     if kind in ("cmd", "http", "file"):
         if _truthy_env(env[EXT_ENV]):
             return True, "env"
@@ -648,7 +679,7 @@ def _check_load_denial(sc: dict, op: dict, grant: dict, env: dict, res: dict, si
     pid = op["pipeline"]
     doc = sc["pipelines"][pid]
     it = _single(sc, pid, ("template",))
-    if it is None or sc.get("injected", {}).get(pid) or "no_such_item_type" in core.jdump(doc) or op.get("yaml_tag"):
+    if it is None or "vars" not in it or sc.get("injected", {}).get(pid) or "no_such_item_type" in core.jdump(doc) or op.get("yaml_tag"):
         return None  # a document with smuggled keys or a typo may legitimately be rejected for those first
     if any(p.get("type") == "nest" for p in doc.get("postprocessing", [])):
         return None
